@@ -1022,6 +1022,15 @@ fn run_inner(case: &Case) -> String {
             init = init.set_clock_tolerance(Duration::from_nanos(t as u64));
         }
     }
+    // a timeout given as the first command is set through the builder (SimInit::set_timeout) instead of
+    // Simulation::set_timeout on benches chosen by a parity of the case
+    let builder_timeout = match case.cmds.first() {
+        Some(Cmd::SetTimeout(ms)) if (n + case.cmds.len()) % 2 == 0 => Some(*ms),
+        _ => None,
+    };
+    if let Some(ms) = builder_timeout {
+        init = init.set_timeout(Duration::from_millis(ms));
+    }
     for id in 0..n {
         if case.models[id].parent.is_none() && case.models[id].place == 0 {
             let name = if case.models[id].named {
@@ -1229,7 +1238,9 @@ fn run_inner(case: &Case) -> String {
                 format!("race:{}:{}", code, sr)
             }
             Cmd::SetTimeout(ms) => {
-                simu.set_timeout(Duration::from_millis(*ms));
+                if builder_timeout.is_none() {
+                    simu.set_timeout(Duration::from_millis(*ms));
+                }
                 "ok".into()
             }
             Cmd::SinkOpen(k, o) => {
@@ -1256,8 +1267,14 @@ fn run_inner(case: &Case) -> String {
     // the simulation goes first: dropping a never-added mailbox while a sender task is still blocked
     // on it would wake that task from outside the executor (which panics by design)
     *probe.lock().unwrap() = None;
-    drop(simu);
-    drop(sched);
+    // the Scheduler handle is dropped before or after the simulation (a parity of the case decides)
+    if (n + case.cmds.len()) % 2 == 1 {
+        drop(sched);
+        drop(simu);
+    } else {
+        drop(simu);
+        drop(sched);
+    }
     // every model that was added (sub-models included) must have been dropped exactly once by now;
     // models never added are still owned by this function
     let drops = SM_DROPS.load(std::sync::atomic::Ordering::SeqCst);
